@@ -141,3 +141,16 @@ Example C06_int_preimages :
   pre_literal (LInt 36028797018963968) = Ok [x80; x80; x80; x80; x80; x80; x80; x80; x01] /\
   pre_literal (LInt (-9223372036854775808)) = Ok [xff; xff; xff; xff; xff; xff; xff; xff; xff; x01].
 Proof. repeat split; vm_compute; reflexivity. Qed.
+
+(* objects of one kind inherit the component's injectivity (predicate objects: full; literal objects: within one type) *)
+Theorem C06_object_inj_same_kind_partial :
+  (forall p q, pre_object (OPred p) = pre_object (OPred q) ->
+     pid p = pid q /\ match panchor p, panchor q with
+                      | None, None => True
+                      | Some x, Some y => wrap64 (t_ns x) = wrap64 (t_ns y)
+                      | _, _ => False
+                      end) /\
+  (forall a b, same_lit_type a b = true -> lit_in_range a = true -> lit_in_range b = true ->
+     pre_object (OLit a) = pre_object (OLit b) -> a = b).
+Proof. split; [exact pre_object_inj_same_kind_pred | exact pre_object_inj_same_kind_lit]. Qed.
+Print Assumptions C06_object_inj_same_kind_partial.
